@@ -11,6 +11,8 @@ file decides the class.
 import re
 import zlib
 
+import random
+
 from . import reftok
 from .seams import Outcome
 
@@ -303,6 +305,12 @@ def gen_model_multi(rng, toks, dur=None):
     return {'rules': rules, 'default': 'ok', 'classes': classes}
 
 
+def hash_seed(*objs):
+    import hashlib
+    return int.from_bytes(hashlib.blake2b(repr(objs).encode(),
+                                          digest_size=8).digest(), 'big')
+
+
 def gen_compare_opts(rng, golden, cc=False):
     """Comparison options that the golden outcome (exit, out, err) satisfies."""
     opts = []
@@ -324,6 +332,18 @@ def gen_compare_opts(rng, golden, cc=False):
             opts += ['--match-out-cc', sub(golden[1])]
         if rng.random() < 0.3 and sub(golden[2]):
             opts += ['--match-err-cc', sub(golden[2])]
+        # a match string the golden cross-check run does not satisfy (nothing
+        # checks that at start-up, unlike for the main command): candidates
+        # whose stream merely equals the golden one must be rejected
+        r2 = random.Random(hash_seed(golden, opts))
+        if r2.random() < 0.2:
+            which = r2.choice([1, 2])
+            alphabet = [x.strip('\n') for x in (OUTS if which == 1 else ERRS)
+                        if x.strip('\n')]
+            foreign = [x for x in alphabet if x not in (golden[which] or '')]
+            flag = '--match-out-cc' if which == 1 else '--match-err-cc'
+            if foreign and flag not in opts:
+                opts += [flag, r2.choice(foreign)]
         return opts
     if k < 0.2:
         opts.append('--ignore-output')
